@@ -381,6 +381,17 @@ func c07Setup(c *Ctx, fns []*ssa.Function) {
 	P := c.P
 	sSetup := Spec{"./components/providers/http/decoders/ammo", "Ammo", "Setup"}
 	sRawSetup := Spec{"./components/providers/http/decoders/ammo", "RawAmmo", "Setup"}
+	// does Setup itself copy the header it is given?
+	setupCopiesHeader := false
+	if setup := P.Func("components/providers/http/decoders/ammo", "Ammo", "Setup"); setup != nil {
+		EachInstr(setup, func(in ssa.Instruction) {
+			if v, isSt := StoreToField(in, "Ammo", "header"); isSt {
+				if cl, ok := v.(*ssa.Call); ok && MatchCC(&cl.Call, Spec{"net/http", "Header", "Clone"}) {
+					setupCopiesHeader = true
+				}
+			}
+		})
+	}
 	n := 0
 	for _, fn := range fns {
 		EachInstr(fn, func(in ssa.Instruction) {
@@ -410,6 +421,36 @@ func c07Setup(c *Ctx, fns []*ssa.Function) {
 						return fv != nil && fv.Name() == field
 					})
 				}
+				// the header map handed to the entry is its own: on every alternative it is the result of Header.Clone()
+				// or a map made here, never the caller's accumulator / the decoder's configured headers themselves
+				// (a later in-file header line, or a per-entry header, would rewrite the entries already produced)
+				shared := c07SharedLeaves(P, a[4])
+				why := ""
+				for _, sh := range shared {
+					if sh.why != "" {
+						why = sh.why
+						break
+					}
+				}
+				if why == "" && len(shared) > 0 {
+					// shared with a map nobody mutates: still wrong if this function writes through the shared value
+					tainted := map[ssa.Value]bool{}
+					for _, sh := range shared {
+						for _, v := range sh.via {
+							tainted[v] = true
+						}
+					}
+					EachInstr(fn, func(in2 ssa.Instruction) {
+						if mu, ok := in2.(*ssa.MapUpdate); ok && tainted[mu.Map] {
+							why = "the entry's header values are written into a map that is shared with the decoder"
+						}
+						if cc := CC(in2); cc != nil && MatchCC(cc, Spec{"net/http", "Header", "Set"}, Spec{"net/http", "Header", "Add"}, Spec{"net/http", "Header", "Del"}) && len(cc.Args) > 0 && tainted[cc.Args[0]] {
+							why = "the entry's header values are written (Set/Add/Del) into a map that is shared with the decoder"
+						}
+					})
+				}
+				c.Check(setupCopiesHeader || why == "", "O7.5", k+":entry-owns-its-header-map", cl.Pos(),
+					"the header map given to Ammo.Setup must be the entry's own (Header.Clone() / make), or a map that nothing mutates: "+why)
 				m, isConst := ConstString(a[1])
 				switch {
 				case strings.HasSuffix(k, "uriDecoder).readLine"):
@@ -473,8 +514,14 @@ func c07Setup(c *Ctx, fns []*ssa.Function) {
 		for f, idx := range t.fields {
 			ok := false
 			EachInstr(setup, func(in ssa.Instruction) {
-				if v, isSt := StoreToField(in, t.typ, f); isSt && idx < len(setup.Params) && v == ssa.Value(setup.Params[idx]) {
-					ok = true
+				if v, isSt := StoreToField(in, t.typ, f); isSt && idx < len(setup.Params) {
+					p := ssa.Value(setup.Params[idx])
+					if cl, isCall := v.(*ssa.Call); isCall && MatchCC(&cl.Call, Spec{"net/http", "Header", "Clone"}) && len(cl.Call.Args) > 0 {
+						v = cl.Call.Args[0] // a defensive copy of the parameter
+					}
+					if v == p {
+						ok = true
+					}
 				}
 			})
 			c.Check(ok, "O7.5", fk(setup)+":stores-"+f, setup.Pos(), fmt.Sprintf("Setup stores its parameter #%d into field %s", idx, f))
@@ -596,4 +643,149 @@ func isZeroConst(k *ssa.Const) bool {
 		return true
 	}
 	return false
+}
+
+
+// c07SharedLeaves resolves the header value handed to Ammo.Setup through phis, type changes and (package-local)
+// parameters down to its sources, and returns those that are not fresh maps (Header.Clone() results or make). For each
+// it says, in why, what mutates the underlying map (empty: nothing does - a decoder field that is only read).
+type c07Shared struct {
+	via []ssa.Value // the values between the Setup argument and this leaf
+	why string
+}
+
+func c07SharedLeaves(P *Prog, v ssa.Value) []c07Shared {
+	var out []c07Shared
+	seen := map[ssa.Value]bool{}
+	var walk func(v ssa.Value, via []ssa.Value)
+	walk = func(v ssa.Value, via []ssa.Value) {
+		if seen[v] {
+			return
+		}
+		seen[v] = true
+		via = append(append([]ssa.Value{}, via...), v)
+		switch x := v.(type) {
+		case *ssa.Phi:
+			for _, e := range x.Edges {
+				walk(e, via)
+			}
+			return
+		case *ssa.ChangeType:
+			walk(x.X, via)
+			return
+		case *ssa.MakeMap:
+			return
+		case *ssa.Call:
+			if MatchCC(&x.Call, Spec{"net/http", "Header", "Clone"}) {
+				return
+			}
+		case *ssa.Parameter:
+			sites := P.StaticCallSites(x.Parent())
+			idx := -1
+			for i, p := range x.Parent().Params {
+				if p == x {
+					idx = i
+				}
+			}
+			if len(sites) > 0 && idx >= 0 {
+				for _, s := range sites {
+					if cc := CC(s); cc != nil && idx < len(cc.Args) {
+						walk(cc.Args[idx], via)
+					}
+				}
+				return
+			}
+		case *ssa.UnOp:
+			if fa, ok := x.X.(*ssa.FieldAddr); ok && x.Op == token.MUL {
+				fv := derefStructOf(fa.X.Type()).Field(fa.Field)
+				out = append(out, c07Shared{via, c07FieldMutated(P, fa.Parent().Pkg, fv)})
+				return
+			}
+		}
+		out = append(out, c07Shared{via, "its source is neither a fresh map nor a decoder field (" + v.String() + ")"})
+	}
+	walk(v, nil)
+	return out
+}
+
+func derefStructOf(t types.Type) *types.Struct {
+	if p, ok := t.Underlying().(*types.Pointer); ok {
+		t = p.Elem()
+	}
+	st, _ := t.Underlying().(*types.Struct)
+	return st
+}
+
+// c07FieldMutated: is the map held in field fv written anywhere in pkg? Every load of the field is followed through
+// phis and type changes; reading uses (Clone/Get/Values, range, lookup, len, nil test, being handed to a Setup) are
+// fine, a map update or Set/Add/Del is a mutation, and anything else is conservatively taken as one.
+func c07FieldMutated(P *Prog, pkg *ssa.Package, fv *types.Var) string {
+	why := ""
+	for _, fn := range PkgFuncs(pkg) {
+		if !IsProdFile(P.File(fn.Pos())) {
+			continue
+		}
+		EachInstr(fn, func(in ssa.Instruction) {
+			ld, ok := in.(*ssa.UnOp)
+			if !ok || ld.Op != token.MUL {
+				return
+			}
+			fa, ok := ld.X.(*ssa.FieldAddr)
+			if !ok || derefStructOf(fa.X.Type()) == nil || derefStructOf(fa.X.Type()).Field(fa.Field) != fv {
+				return
+			}
+			seen := map[ssa.Value]bool{}
+			var uses func(v ssa.Value)
+			uses = func(v ssa.Value) {
+				if seen[v] {
+					return
+				}
+				seen[v] = true
+				for _, r := range *v.Referrers() {
+					switch u := r.(type) {
+					case *ssa.Phi:
+						uses(u)
+					case *ssa.ChangeType:
+						uses(u)
+					case *ssa.Range, *ssa.Lookup, *ssa.BinOp, *ssa.DebugRef, *ssa.If:
+					case *ssa.MapUpdate:
+						if u.Map == v {
+							why = "field " + fv.Name() + " is written at " + P.Fset.Position(u.Pos()).String()
+						}
+					case *ssa.Store:
+						if u.Val == v {
+							if fa2, ok := u.Addr.(*ssa.FieldAddr); ok && derefStructOf(fa2.X.Type()) != nil {
+								continue // kept in another field: judged where that field is used
+							}
+							why = "field " + fv.Name() + " escapes at " + P.Fset.Position(u.Pos()).String()
+						}
+					default:
+						cc := CC(r)
+						switch {
+						case cc == nil:
+							why = "field " + fv.Name() + " is used in an unrecognised way at " + P.Fset.Position(r.Pos()).String()
+						case IsBuiltinCall(r, "len"):
+						case MatchCC(cc, Spec{"net/http", "Header", "Clone"}, Spec{"net/http", "Header", "Get"}, Spec{"net/http", "Header", "Values"}):
+						case MatchCC(cc, Spec{"net/http", "Header", "Set"}, Spec{"net/http", "Header", "Add"}, Spec{"net/http", "Header", "Del"}):
+							if len(cc.Args) > 0 && cc.Args[0] == v {
+								why = "field " + fv.Name() + " is written at " + P.Fset.Position(r.Pos()).String()
+							}
+						case cc.StaticCallee() != nil && cc.StaticCallee().Name() == "Setup":
+						case cc.StaticCallee() != nil && cc.StaticCallee().Pkg == pkg:
+							// a package-local helper: follow the parameter
+							for i, a := range cc.Args {
+								if a == v && i < len(cc.StaticCallee().Params) {
+									uses(cc.StaticCallee().Params[i])
+								}
+							}
+						default:
+							why = "field " + fv.Name() + " is handed to " + cc.String() + " at " + P.Fset.Position(r.Pos()).String()
+						}
+					}
+				}
+			}
+			uses(ld)
+		})
+	}
+	return why
 }
